@@ -104,10 +104,19 @@ func parseHJ(t *toks) hjson {
 }
 
 // the archive of a case: built by the harness's writer from the abstract tokens
-func c14build(depth, fan int, gzipped bool, h Hdr, es []Ent, data, meta []byte) *Archive {
+// gaps between the sections (the spec allows them; go-pmtiles never writes them): taken from a case line's header
+func c14gaps(h Hdr) (int, int) {
+	pl, pd := h.LeafOff-h.MetaOff-h.MetaLen, h.DataOff-h.LeafOff-h.LeafLen
+	if h.LeafOff == 0 || pl > 1<<12 || pd > 1<<12 {
+		return 0, 0
+	}
+	return int(pl), int(pd)
+}
+
+func c14build(depth, fan int, gzipped bool, h Hdr, es []Ent, data, meta []byte, padLeaf, padData int) *Archive {
 	rr := &rng{s: uint64(len(es))*977 + uint64(depth)}
 	a := buildArchive(rr, es, data, archOpts{tree: treeOpts{depth: depth, fan: fan, gzip: gzipped, shorthand: true}, tileType: h.TileType, tileComp: h.TileComp,
-		meta: string(meta), minZoom: h.MinZoom, maxZoom: h.MaxZoom, clustered: h.Clustered == 1})
+		meta: string(meta), minZoom: h.MinZoom, maxZoom: h.MaxZoom, clustered: h.Clustered == 1, padLeaf: padLeaf, padData: padData})
 	a.H.MinLon, a.H.MinLat, a.H.MaxLon, a.H.MaxLat = h.MinLon, h.MinLat, h.MaxLon, h.MaxLat
 	a.H.CenterZoom, a.H.CenterLon, a.H.CenterLat = h.CenterZoom, h.CenterLon, h.CenterLat
 	a.H.Addressed, a.H.Entries, a.H.Contents = h.Addressed, h.Entries, h.Contents
@@ -163,7 +172,8 @@ func c14edit(t *toks) (string, []string) {
 	mt := t.s()
 	t.u() // metalen: for the model
 	h, es, data, meta := parseArch(t)
-	a := c14build(depth, fan, gzipped, h, es, data, meta)
+	gl, gd := c14gaps(h)
+	a := c14build(depth, fan, gzipped, h, es, data, meta, gl, gd)
 	if a.H != h {
 		return "harness", []string{"harness: the case line's header is not the header of the rebuilt archive"}
 	}
@@ -206,7 +216,14 @@ func c14edit(t *toks) (string, []string) {
 		return "ok unreadable", []string{"the edited archive cannot be read back: " + rerr.Error()}
 	}
 	var viol []string
-	viol = append(viol, structureViolations(out, h2, es2)...)
+	for _, v := range structureViolations(out, h2, es2) {
+		// a header-only edit is an in-place header write: an archive that came with gaps between its sections keeps them
+		// (every byte after the header is compared below); only a rewritten file must be chained
+		if mt == "-" && (gl != 0 || gd != 0) && strings.HasPrefix(v, "sections are not chained") {
+			continue
+		}
+		viol = append(viol, v)
+	}
 	viol = append(viol, contentMapViolations(es, data, es2, data2, "edit")...)
 	sec := func(f []byte, off, n uint64) []byte {
 		if off+n > uint64(len(f)) {
@@ -273,7 +290,8 @@ func c14edit(t *toks) (string, []string) {
 func c14showedit(t *toks) (string, []string) {
 	depth, fan, gzipped := t.n(), t.n(), t.n() == 1
 	h, es, data, meta := parseArch(t)
-	a := c14build(depth, fan, gzipped, h, es, data, meta)
+	gl, gd := c14gaps(h)
+	a := c14build(depth, fan, gzipped, h, es, data, meta, gl, gd)
 	if a.H != h {
 		return "harness", []string{"harness: the case line's header is not the header of the rebuilt archive"}
 	}
@@ -486,6 +504,7 @@ func c14(r *rng, tier string, o *out) {
 		}
 		return jnum{m, k}
 	}
+	gapsOn := false // edit and showedit cases: sections separated by padding in a share of the archives
 	genArch := func(c int, withLeaves bool) (int, int, bool, *Archive, []byte) {
 		ne := 1 + r.intn(12)
 		es, dl := genEntries(r, entOpts{n: ne, maxGapLog: 8, runs: true, shared: r.chance(50)})
@@ -515,7 +534,12 @@ func c14(r *rng, tier string, o *out) {
 		if withLeaves && depth == 0 {
 			depth = 1
 		}
-		a := c14build(depth, fan, gzipped, h, es, data, meta)
+		gl, gd := 0, 0
+		if gapsOn && r.chance(35) {
+			gl, gd = r.intn(3)*r.intn(20), 1+r.intn(40)
+			o.count("archive_with_gaps_between_sections")
+		}
+		a := c14build(depth, fan, gzipped, h, es, data, meta, gl, gd)
 		return depth, fan, gzipped, a, meta
 	}
 	archTokens := func(a *Archive, meta []byte) string { return archStr(a.H, a.Ents, a.Data, meta) }
@@ -530,6 +554,7 @@ func c14(r *rng, tier string, o *out) {
 		pad := strings.Repeat("x", r.intn(300))
 		return []byte(fmt.Sprintf(`{ "zz": [1, 2.50, {"k": null}], "name": "edited %d <&>", "pad": "%s", "attribution": "é", "n": %d }`, c, pad, r.intn(1000)))
 	}
+	gapsOn = true
 	for c := 0; c < nEdit; c++ {
 		depth, fan, gzipped, a, meta := genArch(c, r.chance(70))
 		var hjTok = "0"
@@ -582,6 +607,7 @@ func c14(r *rng, tier string, o *out) {
 			o.violation(idx, v)
 		}
 	}
+	gapsOn = false
 	// metadata edit under every output-size limit
 	for c := 0; c < nSweep; c++ {
 		_, _, gzipped, a, _ := genArch(c, true)
